@@ -219,6 +219,9 @@ class Program:
         from . import renames as _renames
 
         self.renames_undone = _renames.recover(self.modules)
+        from . import normalise as _normalise
+
+        self.normalised = _normalise.apply(self.modules)
         if self.inline_from is not None:
             from .inline import inline_modules
 
@@ -482,6 +485,11 @@ class Program:
         if isinstance(e, ast.Call) and isinstance(e.func, ast.Name) and e.func.id == "len" and len(e.args) == 1:
             v = self.fold(e.args[0], func, m, depth + 1)
             return len(v) if isinstance(v, (str, list, tuple)) else None
+        if isinstance(e, ast.Call) and isinstance(e.func, ast.Name) and e.func.id in ("list", "tuple") and len(e.args) == 1 and not e.keywords:
+            v = self.fold(e.args[0], func, m, depth + 1)
+            if isinstance(v, (list, tuple)):
+                return list(v) if e.func.id == "list" else tuple(v)
+            return None
         return None
 
     # ------------------------------------------------------------------ types
